@@ -381,6 +381,88 @@ theorem extract_combine_id_consistent {α : Type} (m : Mesh) (ghost : Bool) (sub
   · rw [h1 id hid] at hb; exact absurd hb (by simp)
 
 
+/-- **ghost cells come from the neighbours**: the layer that the `_MPIBC` of node `a` writes
+(`_idx_write`) holds, in the padded sub-array cut out of the padded base array, exactly the values
+of the layer that the opposite `_MPIBC` of its neighbour `b` reads (`_idx_read`), at every
+transversal position.  Across the periodic seam this uses that the padded base array obeys the
+periodic condition along the axis. -/
+theorem ghost_exchange {α : Type} (m : Mesh) (full : Arr α) (axis a b : Nat) (upper : Bool)
+    (ha : a < m.len) (hb : b < m.len) (hax : axis < m.axes.length)
+    (h : neighbor m axis upper a = some b)
+    (hper : m.periodic.getD axis false = true → ∀ g : List Nat,
+      full.get (g.set axis (m.shape.getD axis 0 + 1)) = full.get (g.set axis 1) ∧
+      full.get (g.set axis 0) = full.get (g.set axis (m.shape.getD axis 0)))
+    (q : List Nat) :
+    (m.extract true full a).get (q.set axis (mpiWrite upper ((m.subShape a).getD axis 0)))
+      = (m.extract true full b).get (q.set axis (mpiRead (!upper) ((m.subShape b).getD axis 0))) := by
+  have hia := id2idx_inRange m ha
+  have hib := id2idx_inRange m hb
+  have hdl : axis < m.dec.length := by rw [Mesh.dec_length]; exact hax
+  have hka := inRange_getD hia axis hdl
+  obtain ⟨k', h1, h2⟩ := (neighbor_some_iff m axis upper a b ha hb hax).1 h
+  have hla : axis < (m.id2idx a).length := by
+    unfold Mesh.id2idx; rw [unravel_length]; exact hdl
+  have ekb : (m.id2idx b).getD axis 0 = k' := by rw [h2]; exact getD_set_self _ _ _ _ hla
+  have hdec : m.dec.getD axis 0 = (m.axes.getD axis []).length := by
+    simp only [Mesh.dec, List.getD_eq_getElem?_getD, List.getElem?_map]
+    cases m.axes[axis]? <;> simp
+  have hshape : m.shape.getD axis 0 = (m.axes.getD axis []).sum := by
+    simp only [Mesh.shape, List.getD_eq_getElem?_getD, List.getElem?_map]
+    cases m.axes[axis]? <;> simp
+  have hk' := nbStep_lt hka h1
+  have hseam := fun hend => hper (nbStep_seam h1 hend)
+  rw [hshape] at hseam
+  rw [hdec] at hka hk' h1 hseam
+  -- start corners
+  have hsb : starts (m.box true b) = (starts (m.box true a)).set axis (offset (m.axes.getD axis []) k') := by
+    unfold Mesh.box; rw [h2]; exact starts_boxOf_set true m.axes _ axis k' hia hax hk'
+  have hsa : (starts (m.box true a)).getD axis 0 = offset (m.axes.getD axis []) ((m.id2idx a).getD axis 0) :=
+    starts_boxOf_getD true m.axes _ axis hia hax
+  have ena : (m.subShape a).getD axis 0 = sizeAt (m.axes.getD axis []) ((m.id2idx a).getD axis 0) :=
+    subShapeOf_getD m.axes _ axis hia hax
+  have enb : (m.subShape b).getD axis 0 = sizeAt (m.axes.getD axis []) k' := by
+    rw [← ekb]; exact subShapeOf_getD m.axes _ axis hib hax
+  simp only [Mesh.extract, Arr.slice]
+  rw [hsb, vadd_set_set, vadd_set, hsa, ena, enb]
+  generalize m.axes.getD axis [] = sizes at *
+  generalize (m.id2idx a).getD axis 0 = k at *
+  generalize vadd (starts (m.box true a)) q = X
+  unfold nbStep at h1
+  cases upper
+  · -- lower side of `a`: write index 0, the neighbour sends its last valid layer
+    simp only [Bool.false_eq_true, if_false, mpiWrite, mpiRead, Bool.not_false, if_true, Nat.add_zero] at h1 hseam ⊢
+    split_ifs at h1 with c0 c1 c2
+    · simp only [Option.some.injEq] at h1
+      subst h1
+      have : offset sizes (k - 1) + sizeAt sizes (k - 1) = offset sizes k := by
+        rw [← offset_succ]; congr 1; omega
+      rw [this]
+    · simp only [Option.some.injEq] at h1
+      subst h1
+      have e0 : k = 0 := by omega
+      have e1 : offset sizes (sizes.length - 1) + sizeAt sizes (sizes.length - 1) = sizes.sum := by
+        rw [← offset_succ]
+        have : sizes.length - 1 + 1 = sizes.length := by omega
+        rw [this, offset_length]
+      rw [e1, e0, offset_zero]
+      exact ((hseam e0) X).2
+  · -- upper side of `a`: write index n+1, the neighbour sends its first valid layer
+    simp only [if_true, mpiWrite, mpiRead, Bool.not_true, Bool.false_eq_true, if_false] at h1 hseam ⊢
+    split_ifs at h1 with c0 c1 c2
+    · simp only [Option.some.injEq] at h1
+      subst h1
+      rw [offset_succ]
+      simp only [Nat.add_assoc]
+    · simp only [Option.some.injEq] at h1
+      subst h1
+      have e1 : offset sizes k + sizeAt sizes k = sizes.sum := by
+        rw [← offset_succ]
+        have : k + 1 = sizes.length := by omega
+        rw [this, offset_length]
+      rw [offset_zero, Nat.zero_add, ← Nat.add_assoc, e1]
+      exact ((hseam c1) X).1
+
+
 /-! ## geometry of the sub-grids -/
 
 section bounds
